@@ -3,7 +3,7 @@ from ..rules import dasksib, holds, flow, delivery
 from .common import declare
 
 RULES = ['SIBLING-SIG', 'DASK-REGISTRY', 'MRO-INIT', 'SCATTER-GATHER', 'HOLD-BEFORE-ESCAPE', 'REL-AFTER-AWAIT', 'LINEAR-HOLD',
-         'NO-REL-ON-FAIL', 'META-PASS', 'PROPAGATE', 'EMIT-SIG']
+         'NO-REL-ON-FAIL', 'META-PASS', 'PROPAGATE', 'EMIT-SIG', 'SWAP-ATOMIC']
 FLOORS = {'SIBLING-SIG': 9, 'DASK-REGISTRY': 10, 'MRO-INIT': 9, 'SCATTER-GATHER': 5, 'HOLD-BEFORE-ESCAPE': 2, 'REL-AFTER-AWAIT': 2,
           'LINEAR-HOLD': 2, 'META-PASS': 2, 'PROPAGATE': 8, 'EMIT-SIG': 5}
 
@@ -41,6 +41,9 @@ def run(ctx, R):
               and k[1].split('.')[2] not in mixed]:
         del R.obs[k]
     R.run(delivery.check_emit_sig, ctx, R, dcls)
+    # a flush that resets its buffer only after awaiting downstream is harmless with synchronous local consumers, but
+    # a Dask segment makes that await long: arrivals in between are wiped
+    R.run(delivery.check_swap_atomic, ctx, R, [c_ for c_ in (M.cls('streamz.core', n, required=False) for n in sorted(mixed)) if c_ is not None])
 
 
 META['level'] += ' PROPAGATE is also evaluated on the core classes whose update() the Dask mix-ins inherit.'
